@@ -29,7 +29,9 @@ var props = map[string]func(*Ctx){
 	"C13": propC13,
 	"C14": propC14,
 	"C15": propC15,
+	"C16": propC16,
 	"C17": propC17,
+	"C18": propC18,
 	"C19": propC19,
 	"C20": propC20,
 }
